@@ -20,7 +20,9 @@ INT_LANDMARKS = {
     3000: 10 ** 5000,        # beyond CPython's default 4300-digit limit for int -> str
 }
 INT_LANDMARKS_INV = {v: k for k, v in INT_LANDMARKS.items()}
-FLOAT_LANDMARKS = {100100: float(2 ** 63), -100000: float(-(2 ** 63)), 200000: 1e308, -200000: -1e308}
+# (150000 and 200000 are both so large that scaling them by any precision overflows)
+FLOAT_LANDMARKS = {100100: float(2 ** 63), -100000: float(-(2 ** 63)), 200000: 1e308, -200000: -1e308,
+                   150000: 5e307}
 FLOAT_LANDMARKS_INV = {v: k for k, v in FLOAT_LANDMARKS.items()}
 
 
